@@ -428,6 +428,13 @@ func genBundle(c *ctx, cached bool) {
 		}
 	}
 	if cached {
+		if f := cacheVsPlainOnAliases(); f != "" {
+			st.Add(&cs.Case{Coq: "(KBun (mkTab [] [] [] []) [] [])", Class: "cache-vs-plain-aliases", Nontrivial: true, Desc: map[string]any{"what": "bundles sharing token objects, verified and attenuated in turn: cache answer = plain verifier's answer"}, OracleFail: f})
+		}
+	}
+	// a verifier that caches is a verifier: the attacker's presentations get the plain verifier's answer (also with a discharge of
+	// several KiB, so that cache keys are long)
+	{
 		for i := 0; i < 12; i++ {
 			if f := cacheDischargeOracle(c.r.Fork()); f != "" {
 				st.Add(&cs.Case{Coq: "(KBun (mkTab [] [] [] []) [] [])", Class: "cache-vs-plain-discharges", Nontrivial: true, Desc: map[string]any{"what": "genuine presentation cached, then the attacker's presentations: cache answer = plain verifier's answer"}, OracleFail: f})
@@ -1180,6 +1187,16 @@ func cacheForgeryOracle(r *rng.R) string {
 	if err != nil || len(sets) != 1 || len(sets[0].Caveats) != 2 {
 		return fmt.Sprintf("an honest attenuation verified through the same cache yields %v (err %v), not its own two caveats", sets, err)
 	}
+	// the same token with a third-party caveat added demands its discharge, also from a cache that knows the original
+	if c3, err := macaroon.NewCaveat3P(macaroon.NewEncryptionKey(), "https://tp.cacheforge.test"); err == nil {
+		a3, _ := m.Clone()
+		a3.Add(c3)
+		h3, _ := a3.String()
+		b3, _ := bundle.ParseBundle(bLocs[0], h3)
+		if _, err := b3.Verify(context.Background(), cache); err == nil {
+			return "after the original was accepted through the cache, the same token with a third-party caveat added is accepted without its discharge"
+		}
+	}
 	forged := *m
 	forged.UnsafeCaveats = *macaroon.NewCaveatSet()
 	forged.Tail = make([]byte, 32)
@@ -1251,6 +1268,7 @@ func cacheDischargeOracle(r *rng.R) (fail string) {
 		return "setup: " + err.Error()
 	}
 	proof := r.Bool()
+	big := r.P(1, 3)
 	mkDis := func(uid uint64, bindTo *macaroon.Macaroon) *macaroon.Macaroon {
 		_, dm, err := macaroon.VerifDischargeTicket(ka, tpLoc, ticket, proof)
 		if err != nil {
@@ -1258,6 +1276,11 @@ func cacheDischargeOracle(r *rng.R) (fail string) {
 		}
 		u := auth.FlyioUserID(uid)
 		dm.Add(&u)
+		if big { // a discharge of several KiB: cache keys built from printed tokens get long
+			for k := 0; k < 600; k++ {
+				dm.Add(&macaroon.ValidityWindow{NotBefore: int64(k), NotAfter: 1 << 40})
+			}
+		}
 		if bindTo != nil {
 			if err := dm.BindToParentMacaroon(bindTo); err != nil {
 				panic("setup: bind: " + err.Error())
